@@ -440,6 +440,7 @@ func init() {
 		rep.Cov["target_types"] = total.Types
 		rep.Cov["decodes_returning_error"] = total.Errors
 		rep.Cov["decodes_returning_value"] = total.Values
+		rep.Cov["race_pass"] = racePass(rep, "codec/concurrent-first-use")
 		rep.Cov["valid_encodings_mutated"] = total.Inputs
 		rep.Cov["max_exhaustive_length"] = maxL
 		rep.Cov["batches_rerun_slow"] = len(redo)
